@@ -5,7 +5,7 @@
    transfers of the distribution asset to the distributor's address by anybody (DStray: they run no contract code and
    belong to no epoch), at any times; rejected and aborting calls leave the state unchanged. *)
 From WW Require Import Prim Params Epochs Distributor.
-From WW.Proofs Require Import ArithLemmas DistributorProofs.
+From WW.Proofs Require Import ArithLemmas DistributorProofs DistributorConservation.
 
 (* in every reachable state: stored ids are exactly n..1; every epoch that still holds funds satisfies
    claimed + available = total; the distributor's balance is exactly the sum of the available amounts plus what plain
@@ -91,6 +91,17 @@ Theorem C09_grace_monotone : forall k s admin g s',
   d_epochs s' = d_epochs s /\ d_cursor s' = d_cursor s /\ d_bal s' = d_bal s.
 Proof. exact set_grace_spec. Qed.
 
+(* whole-history conservation: at every point of every history, what the collector ever forwarded is either still available in
+   some stored epoch or recorded as claimed in some stored epoch (rollovers move it between epochs, never out); the claimed
+   ledgers sum to exactly what claimers were paid; and the bank balance is forwarded + plain transfers - paid *)
+Theorem C09_conservation : forall c g h, 1 <= g -> dhist_wf h ->
+  let s := dsrun c g h in let fs := dseffects c (dinit g) h in
+  sum_claimed (d_epochs s) = paid_out fs /\
+  d_bal s = fees_in fs + strays fs - paid_out fs /\
+  fees_in fs = sum_avail (d_epochs s) + sum_claimed (d_epochs s) /\
+  0 <= paid_out fs <= fees_in fs.
+Proof. exact distributor_conservation. Qed.
+
 (* ---- non-vacuity -------------------------------------------------------------------------------------- *)
 Definition DAY : Z := 86400000000000.
 Definition T0 : Z := 1000 * DAY.
@@ -141,6 +152,15 @@ Proof.
   - vm_compute. repeat split; reflexivity.
 Qed.
 
+(* the conservation identities on the history above: 17876 forwarded = 1975 available + 15901 claimed = paid *)
+Example C09_conservation_nonvacuous :
+  let fs := dseffects nv_c (dinit 2) nv_h in let s := dsrun nv_c 2 nv_h in
+  fees_in fs = 17876 /\ paid_out fs = 15901 /\ strays fs = 1000 /\
+  sum_avail (d_epochs s) = 1975 /\ sum_claimed (d_epochs s) = 15901 /\ d_bal s = 2975.
+Proof. vm_compute. repeat split; reflexivity. Qed.
+
+Print Assumptions C09_conservation_nonvacuous.
+Print Assumptions C09_conservation.
 Print Assumptions C09_nonvacuous_with_attached_coins.
 Print Assumptions C09_invariant.
 Print Assumptions C09_epoch_ledger.
